@@ -94,6 +94,8 @@ def main():
             r = allr[k]
             f.write("| %s | %s | %s | %s | %s | %s | %s | %s |\n" % tuple(
                 str(r[x]).replace("|", "\\|") for x in ("change", "check", "seed", "tier", "result", "first_report", "s", "repo_head")))
+    # the generated constants were regenerated from the mutated copy: back to the committed ones
+    sh("git -C %s checkout -- lean/PdshVerif/Gen" % V)
     if not a.in_repo:
         sh("rm -rf %s" % R)
     missed = [r for r in rows if r[3] == "missed"]
